@@ -692,6 +692,14 @@ func (b *bitstream) readNsecs(length uint64) (int, bool, uint8, error) {
 		return 0, false, 0, err
 	}
 
+	// The fraction is scaled by nine digits below. An exponent so large that the scaled
+	// value leaves the representable range cannot be a fraction of a second (and ShiftL
+	// would panic on it).
+	if int64(d.scale)-9 < math.MinInt32 {
+		msg := fmt.Sprintf("invalid timestamp fraction: %v", d)
+		return 0, false, 0, &SyntaxError{msg, b.pos}
+	}
+
 	nsec, err := d.ShiftL(9).trunc()
 	if err != nil || nsec < 0 || nsec > 999999999 {
 		msg := fmt.Sprintf("invalid timestamp fraction: %v", d)
